@@ -27,7 +27,7 @@ pub fn binary_crosscheck(sup: &mut Sup, judge_exit: bool) {
     }
     let stub_dir = sup.scratch().join(format!("stubs-{}", std::process::id()));
     let _ = std::fs::create_dir_all(stub_dir.join("home"));
-    let xs = std::mem::take(&mut sup.xchecks);
+    let xs = sup.xchecks.clone();
     let mut n = 0u64;
     let mut agree = 0u64;
     for x in xs.iter() {
@@ -82,6 +82,57 @@ pub fn binary_crosscheck(sup: &mut Sup, judge_exit: bool) {
     }
     let _ = std::fs::remove_dir_all(&stub_dir);
     sup.extra.insert("binary_crosscheck".into(), json!({"cases": n, "identical_stdout": agree}));
+}
+
+/// Cross-process determinism: the same case run twice as separate processes of the real binary
+/// (different hash seeds) must give identical bytes; also for --show-config.
+pub fn binary_determinism(sup: &mut Sup) {
+    let delta = sup.delta_bin();
+    if !delta.exists() {
+        return;
+    }
+    let stub_dir = sup.scratch().join(format!("stubs-det-{}", std::process::id()));
+    let _ = std::fs::create_dir_all(stub_dir.join("home"));
+    let xs = sup.xchecks.clone();
+    let mut pairs = 0u64;
+    for x in xs.iter().take(40) {
+        let identity: Vec<String> = x["identity"].as_array().map(|a| a.iter().map(|s| s.as_str().unwrap_or("").to_string()).collect()).unwrap_or_default();
+        let args: Vec<String> = x["argv"].as_array().map(|a| a.iter().map(|s| s.as_str().unwrap_or("").to_string()).collect()).unwrap_or_default();
+        let env: Vec<(String, String)> = x["env"].as_array().map(|a| a.iter().filter_map(|p| Some((p[0].as_str()?.to_string(), p[1].as_str()?.to_string()))).collect()).unwrap_or_default();
+        if x["cwd"].is_string() {
+            continue;
+        }
+        let input = exec::unhex(x["input_hex"].as_str().unwrap_or(""));
+        for show_config in [false, true] {
+            let mut a = args.clone();
+            if show_config {
+                a.push("--show-config".to_string());
+            }
+            let mut outs = Vec::new();
+            for _ in 0..2 {
+                let r = BinRun { delta: &delta, parent: parent_for_identity(&identity), args: a.clone(), env: env.clone(), cwd: None, stdin: input.clone(), timeout: Duration::from_secs(30), stub_dir: stub_dir.clone() };
+                match exec::run_bin(&r) {
+                    Ok(o) => outs.push(o.stdout),
+                    Err(e) => {
+                        sup.infra_errors.push(format!("cannot run binary: {}", e));
+                        return;
+                    }
+                }
+            }
+            pairs += 1;
+            if outs[0] != outs[1] {
+                let sa = String::from_utf8_lossy(&outs[0]).to_string();
+                let sb = String::from_utf8_lossy(&outs[1]).to_string();
+                let l = sa.lines().zip(sb.lines()).find(|(p, q)| p != q).map(|(p, q)| format!("`{}` vs `{}`", p.trim(), q.trim())).unwrap_or_default();
+                sup.fail(
+                    Failure::new(if show_config { "C10:nondeterministic-show-config" } else { "C10:nondeterministic-render" }, format!("two processes of the real binary given the same input, options and environment wrote different bytes: {}", exec::printable(l.as_bytes()))),
+                    x.clone(),
+                );
+            }
+        }
+    }
+    let _ = std::fs::remove_dir_all(&stub_dir);
+    sup.extra.insert("binary_determinism_pairs".into(), json!(pairs));
 }
 
 fn first_line(s: &str) -> String {
